@@ -34,7 +34,7 @@ impl Scenario for C09 {
     fn run_case(&self, spec: &CaseSpec, text: bool) -> CaseReport {
         let mut cs = spec.stream();
         let lc = LifeCfg {
-            consumer_ends: vec![ConsumerEnd::ClientCancel, ConsumerEnd::Inherit, ConsumerEnd::Inherit, ConsumerEnd::Drop, ConsumerEnd::DropWhole],
+            consumer_ends: vec![ConsumerEnd::ClientCancel, ConsumerEnd::Inherit, ConsumerEnd::Inherit, ConsumerEnd::Drop, ConsumerEnd::DropWhole, ConsumerEnd::ServerCancel { nowait: false }],
             channel_ends: vec![ChannelEnd::Normal, ChannelEnd::ServerClose { code: 0, text: String::new() }],
             conn_ends: vec![ConnEnd::Normal],
             max_threads: 3,
@@ -42,8 +42,10 @@ impl Scenario for C09 {
             write_faults: false,
             read_faults: true,
             heartbeat: 0,
+            explicit_drop_after_server_cancel: true,
         };
         let mut life = gen_life(&mut cs, &lc);
+        let mut rep_directed = 0u64;
         // the owner tries to re-open closed ids late in the session
         let closed_ids: Vec<u16> = life.chans.iter().filter(|c| matches!(c.end, ChannelEnd::ServerClose { .. })).map(|c| c.id).collect();
         if !closed_ids.is_empty() {
@@ -52,9 +54,50 @@ impl Scenario for C09 {
                 life.gen.plan.owner_ops.push(OwnerOp::OpenChannel { id: Some(*id), keep: cs.choose("keep_reopened", 2) == 1 });
             }
         }
+        // directed: on a channel the server is going to close and that has a server-cancelled consumer, the
+        // cancel arrives a few microseconds before the close (the client's CancelOk and CloseOk compete)
+        if cs.choose("c09_cancel_then_close", 3) == 0 {
+            let mut extra: Vec<(u16, u32, bool, u64)> = Vec::new();
+            for (trig, act) in life.gen.broker.script.iter() {
+                if let (crate::broker::Trigger::AtTime(t), crate::broker::Action::CloseChannel { ch, .. }) = (trig, act) {
+                    for c in life.consumers.iter().filter(|c| c.ch == *ch) {
+                        if let ConsumerEnd::ServerCancel { nowait } = c.end {
+                            let before = 1_000 * (1 + cs.choose("c09_cancel_lead_us", 40) as u64);
+                            extra.push((*ch, c.nth_on_channel, nowait, t.saturating_sub(before)));
+                        }
+                    }
+                }
+            }
+            // ... or both are the server's reaction to the method frame of a (long) publish on that channel, whose
+            // content frames are still being handed to the I/O thread when they arrive
+            if !extra.is_empty() && cs.choose("c09_during_publish", 2) == 0 {
+                let (ch, nth, nowait, _) = extra[0];
+                let t_idx = life.chans.iter().find(|c| c.id == ch).map(|c| (c.thread, c.slot));
+                if let Some((thread, slot)) = t_idx {
+                    let plan = &mut life.gen.plan.threads[thread - 1];
+                    // a long publish right after the consumers of that thread exist
+                    let pos = plan.ops.iter().position(|(_, o)| !matches!(o, Op::Consume { .. })).unwrap_or(plan.ops.len());
+                    let prior_publishes = plan.ops[..pos].iter().filter(|(s2, o)| *s2 == slot && matches!(o, Op::Publish { .. })).count() as u32;
+                    plan.ops.insert(pos, (slot, Op::Publish { exchange: "x.long".into(), rk: "rk.long".into(), mandatory: false, immediate: false, props: 0, body_len: 20 * (life.gen.frame_max - 8), via_exchange: false }));
+                    let close = life.gen.broker.script.iter().find_map(|(_, a)| if let crate::broker::Action::CloseChannel { ch: c, code, text } = a { if *c == ch { Some((*code, text.clone())) } else { None } } else { None });
+                    if let Some((code, text)) = close {
+                        life.gen.broker.script.retain(|(_, a)| !matches!(a, crate::broker::Action::CloseChannel { ch: c, .. } if *c == ch) && !matches!(a, crate::broker::Action::CancelConsumer { ch: c, nth_consumer: k, .. } if *c == ch && *k == nth));
+                        life.gen.broker.script.push((crate::broker::Trigger::OnPublishMethod { ch, nth: prior_publishes }, crate::broker::Action::CancelThenCloseChannel { ch, nth_consumer: nth, nowait, code, text }));
+                        extra.clear();
+                        rep_directed += 1000;
+                    }
+                }
+            }
+            for (ch, nth, nowait, at) in extra {
+                life.gen.broker.script.retain(|(_, a)| !matches!(a, crate::broker::Action::CancelConsumer { ch: c, nth_consumer: k, .. } if *c == ch && *k == nth));
+                life.gen.broker.script.push((crate::broker::Trigger::AtTime(at), crate::broker::Action::CancelConsumer { ch, nth_consumer: nth, nowait }));
+                rep_directed += 1;
+            }
+        }
         let (res, world) = run_generated(&life.gen, cs, text, |_| {});
         let mut rep = CaseReport::default();
         fill_common(&mut rep, &res, &world);
+        rep.count("c09.cancel_just_before_close_directed", rep_directed);
         rep.sample = serde_json::json!({"plan": plan_summary(&life.gen), "channels": life.chans.iter().map(|c| format!("{:?}", c)).collect::<Vec<_>>(), "consumers": life.consumers.iter().map(|c| format!("{:?}", c)).collect::<Vec<_>>(), "script": life.gen.broker.script.iter().map(|s| format!("{:?}", s)).collect::<Vec<_>>()});
         for p in &res.run.panics {
             rep.violate("panic", format!("{}@{}", p.thread, p.location), format!("{} panicked: {}", p.thread, p.message));
@@ -230,6 +273,13 @@ impl Scenario for C09 {
                     }
                 }
             }
+        }
+        // (c') once the client has answered the server's close with CloseOk nothing more goes out on that
+        // channel id until it is opened again: a real broker answers such a frame with 504 CHANNEL_ERROR and
+        // the connection (which must keep working) is gone
+        if let Some(v) = world.broker.client_violations.iter().find(|v| v.starts_with("server-closed:")) {
+            rep.violate("frame-after-close-ok", "on-closed-channel", format!("{}", v));
+            return rep;
         }
         // (d) every other channel is unaffected
         let skip: Vec<u16> = closed.iter().map(|c| c.0).collect();
